@@ -5,10 +5,16 @@
      streamflow.persistence.sqlite.SqliteDatabase.get_deployment / get_filter / get_port / get_step /
        get_target / get_token                  (@cached(cache=lambda self: self.<t>_cache, postprocess=...))
      streamflow.persistence.sqlite.SqliteDatabase.get_workflow / get_execution / get_port_from_token /
-       get_workflow_ports / get_workflow_steps (uncached read paths)
+       get_workflow_ports / get_workflow_steps / get_workflows_by_name (uncached read paths: [GetFresh], they neither
+       read nor fill any cache and hand out rows nobody else holds)
      streamflow.persistence.sqlite.SqliteDatabase.add_* / update_*   (update_* pops <t>_cache[id])
      streamflow.persistence.base.CachedDatabase.__init__             (LRUCache(maxsize=sys.maxsize): no eviction)
      cachebox.cached / cachebox.make_key / postprocess_copy_mutables / postprocess_deepcopy (library, mirrored)
+
+     streamflow.persistence.sqlite._serialized / SqliteDatabase._cache_lock  (commit f4717ad: the six cached getters
+       and their update_* run one at a time; this is why one [step] per operation is faithful also when callers are
+       concurrent -- before it, a getter's SELECT and its cache insertion could enclose an update, see
+       DbCache/Proofs.v race_witness)
 
    What is mirrored, as the code is:
    * a cached getter looks its key up in the table's cache; a hit returns postprocess(cached object); a miss
